@@ -86,6 +86,21 @@ def monitor(case):
         if kind == 'KDataReady' and g['data'] != data:
             return ('read %s returned %s; the flat byte array in arrival order holds %s'
                     % (k, g['data'], data))
+    # the storage object itself (Comp.Storage / the object given to WithStorage) holds the flat array
+    if not hostile and not cfg.get('aconv'):
+        for e in ev:
+            if e['e'] == 'st':
+                for x in e.get('stor', []):
+                    want = [mem.get(x['addr'] + i, 0) for i in range(len(x['data']))]
+                    if x['data'] != want:
+                        return ('storage holds %s at %#x; the flat byte array of this memory holds %s (the memory shares '
+                                'or lost its storage)' % (x['data'], x['addr'], want))
+    # liveness (dram_every_request_answered): after inflight*(missdelay+cps*depth+4) fair rounds
+    # (retrieve until the port is empty, tick) without deliveries every request is answered
+    if not hostile:
+        msg = fair_tail_rule(ev, cfg, order, seen)
+        if msg:
+            return msg
     # quiescence: a retrieval found the port empty and the very next event was a tick
     # without progress (so the state did not change and the port is still empty);
     # if nothing is delivered afterwards, whatever is unanswered is lost for good
@@ -99,10 +114,50 @@ def monitor(case):
     return None
 
 
+def fair_tail_rule(ev, cfg, order, seen):
+    per = cfg['missdelay'] + cfg['cps'] * cfg['depth'] + 4
+    core = [e for e in ev if e['e'] in ('d', 'tick', 'r')]
+    if not core or not (core[-1]['e'] == 'r' and core[-1].get('none')):
+        return None  # the port is not known to be empty at the end
+    lost = [k for k in order if k not in seen]
+    if not lost:
+        return None
+    # split the events after the last delivery attempt into groups ending with a tick
+    last_d = max([i for i, e in enumerate(core) if e['e'] == 'd'], default=-1)
+    rounds = []  # (index of first event of the round, fair?)
+    start = last_d + 1
+    for i in range(last_d + 1, len(core)):
+        if core[i]['e'] == 'tick':
+            fair = i > start and core[i - 1]['e'] == 'r' and core[i - 1].get('none')
+            rounds.append((start, fair))
+            start = i + 1
+    # longest suffix of fair rounds
+    j = len(rounds)
+    while j > 0 and rounds[j - 1][1]:
+        j -= 1
+    for k in range(j, len(rounds)):
+        at = rounds[k][0]
+        got_before = sum(1 for e in core[:at] if e['e'] == 'r' and e.get('got'))
+        inflight = len(order) - got_before  # upper bound of what the theorem calls in flight
+        if len(rounds) - k >= inflight * per:
+            return ('requests %s still unanswered after %d fair rounds (retrieve all, tick) although %d requests were '
+                    'outstanding and the proved bound is %d*%d rounds' % (lost[:8], len(rounds) - k, inflight, inflight, per))
+    return None
+
+
+def strip_ev(e):
+    out = {'e': e['e']}
+    if 'msg' in e:
+        out['msg'] = e['msg']
+    if 'stor' in e:
+        out['stor'] = [{'addr': x['addr'], 'data': [0] * len(x['data'])} for x in e['stor']]
+    return out
+
+
 def strip(case):
     """events without observations (replay input)"""
     return {'cfg': case['cfg'], 'hostile': case.get('hostile', False),
-            'events': [{'e': e['e'], **({'msg': e['msg']} if 'msg' in e else {})} for e in case['events']]}
+            'events': [strip_ev(e) for e in case['events']]}
 
 
 def run_impl(binary, cases=None, seed=1, n=100):
@@ -207,7 +262,14 @@ def main(argv):
     bad = [(i, monitor(c)) for i, c in enumerate(cases)]
     bad = [(i, m) for i, m in bad if m]
     # ---- correspondence with the model
-    okc, mism, clog = vlib.eval_cases(PROP, HEADER, [c['coq'] for c in cases], shard_size=12)
+    okc, res, clog = vlib.eval_cases(PROP, HEADER, [c['coq'] for c in cases], shard_size=12, checker='audit')
+    ncoq = [sum(1 for e in c['events'] if e['e'] in ('d', 'tick', 'r')) for c in cases]
+    mism = [(i, k) for i, k in res if k != ncoq[i] + 1]
+    notwf = {i for i, k in res if k == ncoq[i] + 1}
+    # protocol-respecting histories must satisfy the hypotheses (wf_cfg, wf_req) of dram_no_panic and
+    # dram_every_request_answered, so that those theorems speak about what the generator calls well-formed
+    outside = [i for i in sorted(notwf) if not cases[i].get('hostile')]
+    rep.obligation('protocol-respecting histories satisfy wf_cfg/wf_req of the no-panic and liveness theorems', not outside)
     rep.obligation('correspondence: %d histories evaluated by the model' % len(cases), okc and not mism)
 
     hist = collections.Counter(e['e'] for c in cases for e in c['events'])
@@ -220,7 +282,9 @@ def main(argv):
         'rule': 'random Top-port histories (30-150 events plus a final drain; banks {1,2,3,16,32} x width {1,2} x depth {1,2,5} x '
                 'stage latency {1,2,3} x row-miss delay {0,2,5,52} x row size {off,2^7,2^8,2^11} x port buffers {1,2,4,16} x '
                 'post-pipeline buffer {1,2,128}); hot-address pool with unaligned and boundary-straddling accesses of 1-64 bytes, '
-                'masked writes, bursts, no-retrieve phases; every 5th history hostile (non-request message, short mask, beyond '
+                'masked writes, bursts, no-retrieve phases, pairs of row misses to one bank, fair drain tail; one history in five builds a '
+                'second memory from the same builder value and writes through it, one in five passes its own storage object '
+                '(WithStorage) - the storage is read back at the end; every 5th history hostile (non-request message, short mask, beyond '
                 'capacity, bad source, converter mismatch); non-trivial = at least two responses and at least one read that '
                 'overlaps an earlier write',
         'traces_validated_against_impl': len(cases),
@@ -232,7 +296,10 @@ def main(argv):
         'refused_deliveries': sum(1 for c in cases for e in c['events'] if e['e'] == 'd' and e.get('acc') is False),
         'crashed_cases': sum(1 for c in cases if any(e.get('crash') for e in c['events'])),
         'hostile_cases': sum(1 for c in cases if c.get('hostile')),
+        'twin_builder_cases': sum(1 for c in cases if c['cfg'].get('twin')), 'own_storage_cases': sum(1 for c in cases if c['cfg'].get('ownstorage')),
+        'storage_readbacks': sum(1 for c in cases for e in c['events'] if e['e'] == 'st'),
         'model_mismatches': len(mism), 'monitor_failures': len(bad),
+        'histories_within_wf_hypotheses': len(cases) - len(notwf), 'protocol_respecting_outside_wf': len(outside),
     })
     rep.samples = [{'cfg': c['cfg'], 'events': [(e['e'], e.get('msg', {}).get('id')) for e in c['events'][:25]]} for c in cases[:2]]
 
@@ -247,10 +314,15 @@ def main(argv):
         c = cases[i]
         small = vlib.ddmin(c['events'], lambda evs: fails_monitor(evs, c))
         c2 = dict(strip(c))
-        c2['events'] = [{'e': e['e'], **({'msg': e['msg']} if 'msg' in e else {})} for e in small]
+        c2['events'] = [strip_ev(e) for e in small]
         out, _ = run_impl(binary, cases=[c2])
         rep.violation({'property': PROP, 'what': monitor(out[0]) if out else msg, 'case': out[0] if out else c,
                        'replay_cmd': './check C17 --replay <this file>'}, text=msg)
+    elif outside and okc and not mism:
+        i = outside[0]
+        rep.violation({'property': PROP, 'broken': 'history %d is generated as protocol-respecting traffic but lies outside wf_cfg/wf_req '
+                       '(hypotheses of dram_no_panic / dram_every_request_answered in props/C17.v)' % i, 'case': cases[i]}, nofail=True,
+                      text='generator and theorem hypotheses disagree on what well-formed traffic is (history %d)' % i)
     elif mism or not okc:
         # the model no longer describes the code: look harder for an input on which the
         # real component violates the property itself (monitor only, more seeds)
@@ -269,7 +341,7 @@ def main(argv):
             c, msg = found
             small = vlib.ddmin(c['events'], lambda evs: fails_monitor(evs, c))
             c2 = dict(strip(c))
-            c2['events'] = [{'e': e['e'], **({'msg': e['msg']} if 'msg' in e else {})} for e in small]
+            c2['events'] = [strip_ev(e) for e in small]
             out, _ = run_impl(binary, cases=[c2])
             rep.violation({'property': PROP, 'what': monitor(out[0]) if out else msg, 'case': out[0] if out else c,
                            'replay_cmd': './check C17 --replay <this file>'}, text=msg)
